@@ -170,6 +170,7 @@ func init() {
 				Quick:    sc("authFacts", 1, "azFacts", 1, "azRule", 1, "azCheck", 1, "policies", 2),
 				Thorough: sc("authFacts", 1, "azFacts", 1, "azRule", 2, "azCheck", 1, "policies", 1),
 				Covers:   []string{"compared"}},
+			{Pkg: "biscuit", Func: "VerifC18Malformed", Quick: p("polq", 1), Thorough: p("polq", 1), Covers: []string{"loaded", "accepted"}},
 			{Pkg: "biscuit", Func: "VerifC18RefusedAfterFailure", Quick: p("polq", 1), Thorough: p("polq", 1), Covers: []string{"evaluation-failed", "evaluation-succeeded"}},
 			// the snapshot that is loaded is the second one taken from the same authorizer
 			{Pkg: "biscuit", Func: "VerifC18Snapshot",
